@@ -437,4 +437,24 @@ theorem interleave_splitSpec_nocap (text : List Nat) (capf : Match → List (Lis
     rw [ih _ hvc.2.2 (fun x hx => hs x (by simp [hx])), matchText, List.append_assoc,
       slice_append text m.index (m.index + m.len) hi (by omega) hvc.2.1, slice_append text pos _ hi hvc.1 (by omega)]
 
+/-! ### the scanner on text without `$` -/
+
+theorem scanLoop_plain (isWord : Nat → Bool) (env : Env) : ∀ (rep : List Nat), dollar ∉ rep →
+    scanLoop isWord env rep 0 = .ok (rep.map Tok.ch) := by
+  intro rep
+  induction rep with
+  | nil => intro _; simp [scanLoop]
+  | cons c rest ih =>
+    intro h
+    have hc : c ≠ dollar := by intro e; exact h (by simp [e])
+    have hr : dollar ∉ rest := by intro e; exact h (by simp [e])
+    simp [scanLoop, hc, ih hr]
+
+theorem buildData_chars (env : Env) : ∀ (l sb : List Nat) (strings : List (List Nat)) (rules : List Int),
+    buildData env (l.map Tok.ch) sb strings rules = buildData env [] (sb ++ l) strings rules := by
+  intro l
+  induction l with
+  | nil => intro sb strings rules; simp
+  | cons c rest ih => intro sb strings rules; simp [buildData, ih]
+
 end RegexVerif.Lemmas.Replace
